@@ -21,13 +21,13 @@ PY
 )
   if [ "$ok" != yes ]; then echo "ROUND $id-$n: NOT CONFIRMED, dropped"; rm -rf "$tmp"; continue; fi
   dst=seeded/$id-r$r-$n; mkdir -p $dst; cp "$tmp/patch.diff" "$tmp/demo.rs" $dst/
-  python3 - "$tmp/notes.json" "$dst/meta.json" "$id" "$r" <<'PY'
+  python3 - "$tmp/notes.json" "$dst/meta.json" "$id" "$r" "${ROUND_THEME:-a change that looks like a plausible maintenance pull request (refactor, clean-up, optimisation, error-handling improvement, API migration) and needs a specific sequence, input or option combination to manifest}" <<'PY'
 import json,sys
 try: notes=json.load(open(sys.argv[1]))
 except Exception: notes={}
 meta={"property":sys.argv[3],"round":int(sys.argv[4]),"breaks":notes.get("breaks",""),"summary":notes.get("summary",""),
  "needs_to_manifest":notes.get("needs_to_manifest",""),
- "author":"independent sub-agent given only the property text, a scratch worktree and the request for a change that looks like a plausible maintenance pull request (refactor, clean-up, optimisation, error-handling improvement, API migration) and needs a specific sequence, input or option combination to manifest",
+ "author":"independent sub-agent given only the property text, a scratch worktree and the request for "+sys.argv[5],
  "author_ran":notes.get("ran",[]),
  "confirmed_by_me":{"how":"tools/mutant.sh confirm <dir> <scratch worktree> (via tools/round.sh)","suite_with_patch":"17 unit + 128 integration + 1 doc test pass","demo_without_patch":"passes","demo_with_patch":"fails"}}
 json.dump(meta,open(sys.argv[2],"w"),indent=1)
